@@ -79,7 +79,8 @@ def same(it, a, b):
 def check_fixed(run, prog, n, signed, pre, post, where):
     """store_(u)int(v, n) between `pre` and `post` unknown bits"""
     it = Interp(prog)
-    v = Sym('v', ty='int', not_none=True, key=('v',))
+    # the value is any integer that fits the field: its range is the scenario's premise
+    v = Sym('v', ty='int', not_none=True, key=('v',), lo=-(1 << (n - 1)) if signed else 0, hi=(1 << (n - 1)) - 1 if signed else (1 << n) - 1)
     b = builder(it)
     kind = 'int' if signed else 'uint'
     cons = f'Builder.store_{kind}/Slice.load_{kind}'
@@ -426,7 +427,7 @@ def check(run):
     # addr_extern, several lengths
     for n in (1, 8, 9, 256, 511):
         it = Interp(prog)
-        ext = Sym('ext', ty='int', not_none=True, key=('ext',))
+        ext = Sym('ext', ty='int', not_none=True, key=('ext',), lo=0, hi=(1 << n) - 1)
         ea = it.construct(EA, [ext, K(n)], {})
         for route in ('store_address', 'to_cell'):
             with guard(run, 'D4', f'{route}/load_address[addr_extern]', wa, f'len {n}'):
@@ -461,7 +462,7 @@ def check(run):
     A = prog.cls('Address')
     for anycast in (None, (3, 5), (30, 0x2AAAAAAA)):
         it = Interp(prog)
-        wc = Sym('wc', ty='int', not_none=True, key=('wc',))
+        wc = Sym('wc', ty='int', not_none=True, key=('wc',), lo=-128, hi=127)
         hp = Sym('hash_part', ty='bytes', n=32, key=('hp',))
         addr = it.construct(A, [ListV([wc, hp], tup=True)], {})
         if anycast:
@@ -514,7 +515,7 @@ def check(run):
     # one account in several forms, stored one after the other in the same process: what is written depends on the address given, not on
     # what was stored before (an encoding kept per `Address` - whose equality ignores the anycast - would repeat the first form)
     it = Interp(prog)
-    wc = Sym('wc', ty='int', not_none=True, key=('wc',))
+    wc = Sym('wc', ty='int', not_none=True, key=('wc',), lo=-128, hi=127)
     hp = Sym('hash_part', ty='bytes', n=32, key=('hp',))
     seq_ok, seq_why = True, []
     for step, anycast in enumerate((None, (3, 5), None, (30, 0x2AAAAAAA), (3, 6))):
